@@ -23,7 +23,16 @@
    in [0, 2^24) (0 = an empty box), without a guard: the defect kitty-no-encoding (a KittyImage
    without a current picture was placed all the same) is fixed in /repo and the model follows the
    fixed code; C20_kitty_no_encoding_refuted is about the code before the fix.  The encoder goroutine of
-   KittyImage / Sixel is modelled as finished before the next call (the harness waits for it). *)
+   KittyImage / Sixel is modelled as finished before the next call (the harness waits for it).
+
+   Changes of the TERMINAL's size (gop OTermResize: Render / Refresh takes the size-changed branch, draws
+   nothing, sets vx.refresh; graphicsLast and graphicsNext survive) are part of the histories of the
+   placement section: C20_placement_protocol, C20_placement_inside_window, C20_wire_is_placement_events,
+   C20_transmission_guarded quantify over them, and C20_terminal_shows_last_frame states the protocol
+   invariant on the terminal's own placement table.  Its domain (keys_functional: no frame holds two
+   different placements of one image at one cell) is needed: see C20_same_cell_two_sizes.
+   The chunking of a transmission (kitty_chunks, a function of the payload length) is proved for every
+   length in the last section. *)
 From Vx Require Import base.Prelude model.Image model.ImageHist proofs.ImageProofs proofs.ImageHistProofs.
 
 (* ---------------------------------------------------------------- resizing *)
@@ -202,6 +211,60 @@ Theorem C20_placement_protocol : forall ops i r cur,
 Proof. exact placement_protocol. Qed.
 Print Assumptions C20_placement_protocol.
 
+(* which frames are full refreshes: a Refresh, and the first frame after a change of the terminal
+   size (refresh_at_renders is what the differential run compares with the harness's own record) *)
+Theorem C20_refresh_frames : forall ops,
+  refresh_at_renders false ops = map fst (frames_of [] ops).
+Proof. intros ops. exact (refresh_at_renders_frames ops false []). Qed.
+Print Assumptions C20_refresh_frames.
+
+(* The terminal's side.  term_run replays the placement commands of the output on the terminal's
+   table of placements, keyed by (image id, placement id) = (id, col, row): a=p adds or replaces,
+   a=d,d=i,p deletes that one placement, nothing else (image data, a change of the terminal's size)
+   touches the table.  For EVERY history of Clear / Draw / Render / Refresh / image Resize / terminal
+   size change: after each frame the table holds exactly the placements the application drew in that
+   frame - a placement that was dropped or moved is gone, also when the terminal changed size in
+   between (the frame after it is a full refresh and graphicsLast survives the size change); a
+   placement that was kept is still there.  Domain: in every frame, placements with the same key are
+   the same placement (keys_functional). *)
+Theorem C20_terminal_shows_last_frame : forall ops i cur ev,
+  forallb keys_functional (next_at_renders [] ops) = true ->
+  nth_error (kitty_frames g_init [] ops) i = Some (cur, ev) ->
+  forall k, In k (term_after (kitty_frames g_init [] ops) i) <-> exists p, In p cur /\ key_of p = k.
+Proof. exact terminal_shows_frame. Qed.
+Print Assumptions C20_terminal_shows_last_frame.
+
+(* the same from any state whose graphicsLast the terminal shows, as the boolean the differential run
+   evaluates (term_frames_ok) ... *)
+Theorem C20_terminal_invariant : forall ops s pending live,
+  (forall k, In k live <-> In k (map key_of (g_last s))) -> keys_functional (g_last s) = true ->
+  forallb keys_functional (next_at_renders (g_next s) ops) = true ->
+  term_frames_ok live (kitty_frames s pending ops) = true.
+Proof. exact terminal_invariant. Qed.
+Print Assumptions C20_terminal_invariant.
+
+(* ... and the model satisfies the predicate c20_placement_violations applies (term_shows_last_frame),
+   on every history, without a hypothesis *)
+Theorem C20_terminal_predicate_model : forall ops,
+  term_shows_last_frame (kitty_frames g_init [] ops) = true.
+Proof. exact term_shows_last_frame_model. Qed.
+Print Assumptions C20_terminal_predicate_model.
+
+(* The domain is needed.  One image drawn twice at one cell with two cell sizes in one frame (Draw,
+   Resize, Draw, no Clear in between) and only the second kept in the next frame: render deletes the
+   first by its key, which on the terminal is the key of the second as well; the second is "same" and
+   is not written again.  The terminal shows nothing although the application drew p'. *)
+Theorem C20_same_cell_two_sizes :
+  let p := {| p_id := 1; p_col := 2; p_row := 3; p_w := 4; p_h := 2 |} in
+  let p' := {| p_id := 1; p_col := 2; p_row := 3; p_w := 3; p_h := 2 |} in
+  let ops := [OResize 1; ODraw p 10 5; OResize 1; ODraw p' 10 5; ORender; OClear; ODraw p' 10 5; ORender] in
+  forallb keys_functional (next_at_renders [] ops) = false /\
+  map snd (kitty_frames g_init [] ops) = [[(2, 1, 0, 0); (1, 1, 2, 3); (1, 1, 2, 3)]; [(0, 1, 2, 3)]] /\
+  term_after (kitty_frames g_init [] ops) 1 = [] /\
+  term_frames_ok [] (kitty_frames g_init [] ops) = false.
+Proof. vm_compute. repeat split; reflexivity. Qed.
+Print Assumptions C20_same_cell_two_sizes.
+
 (* KittyImage.Draw and Sixel.Draw place an image only into a window at least as large as the
    image: every placement of every frame was drawn into such a window, so the cells the terminal
    paints for it (p_w x p_h from the window's origin) lie inside the target window *)
@@ -242,6 +305,46 @@ Print Assumptions C20_transmission_refuted.
 Theorem C20_placement_frames : forall ops, length (run_ops g_init ops) = length (frames_of [] ops).
 Proof. exact run_ops_length. Qed.
 Print Assumptions C20_placement_frames.
+
+(* ---------------------------------------------------------------- kitty transmissions: chunking *)
+
+(* KittyImage.Resize cuts the payload (the base64 text of the PNG picture, n bytes) into chunks of 4096
+   bytes; kitty_chunks n is the list of (m flag, size) of the loop in image.go.  For EVERY n >= 1:
+   (n-1)/4096 full chunks with m=1, then one chunk with m=0 holding the 1..4096 bytes that are left -
+   also when n is a whole number of chunks (the last chunk is full and still carries m=0). *)
+Theorem C20_kitty_chunks : forall n, 1 <= n ->
+  kitty_chunks n =
+  repeat (1, chunk_size) (Z.to_nat ((n - 1) / chunk_size)) ++ [(0, n - chunk_size * ((n - 1) / chunk_size))].
+Proof. exact kitty_chunks_closed_form. Qed.
+Print Assumptions C20_kitty_chunks.
+
+(* ceil(n/4096) chunks, whose sizes add up to n (concatenation = payload); all but the last are
+   (m=1, 4096 bytes), the last is (m=0, 1..4096 bytes) *)
+Theorem C20_kitty_chunks_count_sum : forall n, 1 <= n ->
+  zlen (kitty_chunks n) = ceil_div n chunk_size /\ sum_sizes (kitty_chunks n) = n /\
+  exists body k, kitty_chunks n = body ++ [(0, k)] /\ 0 < k <= chunk_size /\
+                 forall c, In c body -> c = (1, chunk_size).
+Proof.
+  intros n Hn. split; [apply kitty_chunks_count; exact Hn|]. split; [apply kitty_chunks_sum; exact Hn|].
+  apply kitty_chunks_flags. exact Hn.
+Qed.
+Print Assumptions C20_kitty_chunks_count_sum.
+
+(* the model's transmission (chunks, then the a=p command) satisfies the predicate the differential run
+   applies to every transmission found in the output (c20_kittytx_violations), for every payload length *)
+Theorem C20_transmission_framing : forall n, 1 <= n -> tx_ok (n, tx_model n, 1) = true.
+Proof. exact tx_model_ok. Qed.
+Print Assumptions C20_transmission_framing.
+
+(* what that predicate demands of an observed transmission: data chunks of the image and nothing else,
+   every chunk open (m=1) but the last, which closes the transfer (m=0); then - and only then - the
+   placement command; the sizes add up to the payload and the payload is the picture *)
+Theorem C20_transmission_framing_meaning : forall n toks same, tx_ok (n, toks, same) = true ->
+  exists body k a b,
+    toks = map (fun c : Z * Z => (0, fst c, snd c)) (body ++ [(0, k)]) ++ [(1, a, b)] /\
+    (forall c, In c body -> fst c = 1) /\ sum_sizes (body ++ [(0, k)]) = n /\ same = 1.
+Proof. exact tx_ok_meaning. Qed.
+Print Assumptions C20_transmission_framing_meaning.
 
 (* ---------------------------------------------------------------- block image objects, all histories *)
 
@@ -455,4 +558,23 @@ Example C20_example_gfx_history :
   Some [(0, 0, 0, 0); (3, 3, 0, 0); (3, 3, 1, 1); (3, 3, 1, 0); (2, 2, 0, 0); (2, 2, 0, 0); (2, 2, 1, 1);
         (0, 0, 1, 0); (0, 0, 0, 0); (2, 2, 0, 0); (2, 2, 1, 1); (0, 0, 0, 0); (0, 0, 0, 0)] /\
   last_box 2 None ops = Some (0, 2).
+Proof. vm_compute. repeat split; reflexivity. Qed.
+
+(* a change of the terminal size between two frames: the placement is deleted and the moved one
+   written, although the second call is a plain Render; the terminal ends with the new one only *)
+Example C20_example_term_resize :
+  let p := {| p_id := 1; p_col := 2; p_row := 3; p_w := 4; p_h := 2 |} in
+  let q := {| p_id := 1; p_col := 5; p_row := 4; p_w := 4; p_h := 2 |} in
+  let ops := [OResize 1; ODraw p 10 5; ORender; OTermResize; OClear; ODraw q 10 5; ORender; ORender] in
+  run_ops g_init ops = [[GWrite p]; [GDelete p; GWrite q]; []] /\
+  frames_of [] ops = [(false, [p]); (true, [q]); (false, [q])] /\
+  forallb keys_functional (next_at_renders [] ops) = true /\
+  term_after (kitty_frames g_init [] ops) 1 = [(1, 5, 4)].
+Proof. vm_compute. repeat split; reflexivity. Qed.
+
+(* chunking: 4096 bytes are ONE chunk with m=0, 8192 bytes two, 8196 three *)
+Example C20_example_chunks :
+  kitty_chunks 4096 = [(0, 4096)] /\ kitty_chunks 8192 = [(1, 4096); (0, 4096)] /\
+  kitty_chunks 8196 = [(1, 4096); (1, 4096); (0, 4)] /\ kitty_chunks 100 = [(0, 100)] /\
+  tx_ok (8192, [(0, 1, 4096); (0, 1, 4096); (1, 0, 0)], 1) = false.
 Proof. vm_compute. repeat split; reflexivity. Qed.
